@@ -24,7 +24,7 @@ type MSpec struct {
 }
 
 type Step struct {
-	Kind   string   `json:"kind"` // new add remove use dup
+	Kind   string   `json:"kind"` // new add remove use readd
 	Name   string   `json:"name,omitempty"`
 	M      MSpec    `json:"m"`
 	Routes []string `json:"routes,omitempty"`
@@ -95,8 +95,11 @@ func gen(t *rapid.T) Case {
 		case k < 6 || i == 0:
 			s = Step{Kind: rapid.SampledFrom([]string{"new", "add"}).Draw(t, "how"), Name: rapid.SampledFrom(names).Draw(t, "name"), M: genMatcher(t, 0)}
 			s.Routes = rapid.SliceOfNDistinct(rapid.SampledFrom(routePool), 1, 4, rapid.ID[string]).Draw(t, "routes")
-		case k < 8:
+		case k < 7:
 			s = Step{Kind: "remove", Name: rapid.SampledFrom(names).Draw(t, "rmname")}
+		case k < 8:
+			// the same router object is offered again under another matcher: refused, and nothing may change
+			s = Step{Kind: "readd", Name: rapid.SampledFrom(names).Draw(t, "rename"), M: genMatcher(t, 0)}
 		default:
 			s = Step{Kind: "use", MW: rapid.IntRange(0, 3).Draw(t, "mw")}
 		}
@@ -286,6 +289,16 @@ func check(c Case, st *rig.Stats) error {
 				rig.Try(func() { r.Handle(p, env.NewH(), nil, "GET") })
 			}
 			members = append(members, member{s.Name, s.M, r})
+		case "readd":
+			for _, m := range members {
+				if m.name != s.Name {
+					continue
+				}
+				if _, panicked := rig.Try(func() { g.Add(build(s.M), m.r.Router) }); !panicked {
+					return rig.Violf("router-names", "%s: adding the router %q a second time was accepted", when, s.Name)
+				}
+				classes = append(classes, "same-router-offered-again")
+			}
 		case "remove":
 			g.Remove(s.Name)
 			for i, m := range members {
